@@ -172,6 +172,20 @@ def rule_rs2(A: Analysis, rep, F: Optional[RestoreFacts] = None):
     return F
 
 
+def flatten_stars(e):
+    """`["tar", *["czf", x], *names]` → `["tar", "czf", x, *names]`: a starred list/tuple display inside a display is spliced in."""
+    if not isinstance(e, (ast.List, ast.Tuple)):
+        return e
+    out = []
+    for x in e.elts:
+        if isinstance(x, ast.Starred) and isinstance(x.value, (ast.List, ast.Tuple)):
+            inner = flatten_stars(x.value)
+            out.extend(inner.elts)
+        else:
+            out.append(x)
+    return ast.copy_location(type(e)(elts=out, ctx=ast.Load()), e)
+
+
 def tar_extra_options(A: Analysis, fi, mode: str) -> Optional[List[str]]:
     """The elements of the tar command line that are neither the program, the mode word, `-C`, nor a `str(path)` /
     starred list of member names: every such element is an option that changes *which* members are packed or how they
@@ -179,7 +193,7 @@ def tar_extra_options(A: Analysis, fi, mode: str) -> Optional[List[str]]:
     pops = [c for c in walk_local(fi.node) if isinstance(c, ast.Call) and norm(c.func) in ("subprocess.Popen", "subprocess.run", "subprocess.check_call")]
     if len(pops) != 1 or not pops[0].args:
         return None
-    argv = A.expand(pops[0].args[0], fi)
+    argv = flatten_stars(A.expand(pops[0].args[0], fi))
     if not isinstance(argv, (ast.List, ast.Tuple)):
         return None
     extra = []
@@ -218,6 +232,12 @@ def tar_failure_checked(A: Analysis, fi) -> bool:
     status = ["%s.returncode" % pv, "%s.wait()" % pv]
     if w.kind == "stmt" and isinstance(w.ast, ast.Assign) and isinstance(w.ast.targets[0], ast.Name):
         status.append(w.ast.targets[0].id)
+    # … or a local that holds the status
+    for n in g.nodes:
+        if n.kind == "stmt" and isinstance(n.ast, (ast.Assign, ast.AnnAssign)) and n.ast.value is not None and norm(n.ast.value) in status[:2]:
+            tg_ = n.ast.targets[0] if isinstance(n.ast, ast.Assign) else n.ast.target
+            if isinstance(tg_, ast.Name) and tg_.id not in status:
+                status.append(tg_.id)
     ok_edges = [e for st in status for a in ("eq(0,%s)" % st,) for e in A.edges_implying(g, fi, a, True)] + \
                [e for st in status for e in A.edges_implying(g, fi, "t(%s)" % st, False)]
     if not ok_edges:
@@ -293,7 +313,7 @@ def rule_name1(A: Analysis, rep):
     rep.check(ok, "NAME1", "archive packs every row of the archive index", ca.node, "", "the tar member list is not built from every version in the archive index")
     pops = [c for c in walk_local(ca.node) if isinstance(c, ast.Call) and norm(c.func) == "subprocess.Popen"]
     ok = False
-    argv = A.expand(pops[0].args[0], ca) if len(pops) == 1 and pops[0].args else None
+    argv = flatten_stars(A.expand(pops[0].args[0], ca)) if len(pops) == 1 and pops[0].args else None
     if isinstance(argv, ast.List):
         el = [norm(x) for x in argv.elts]
         ok = el[:2] == ["'tar'", "'czf'"] and "'-C'" in el and el[el.index("'-C'") + 1] == "str(%s.output_path)" % ca.params[0] and \
